@@ -104,7 +104,8 @@ structure Req where
   provName : Nat           --                              GetName()
   provKnown : Bool         -- LoadProvisionerByName succeeded and it is an ACME provisioner
   url : Nat                -- "https://" + Host + Path
-  ctOk : Bool
+  ct : Nat                 -- Content-Type: 0 application/jose+json, 1 application/pkix-cert, 2 application/pkcs7-mime, 3 anything else
+  certPath : Bool          -- strings.Contains(r.URL.String(), "/<provisioner>/certificate/")
   parsed : Bool
   jws : Jws
   fresh : Nat              -- the nonce `addNonce` mints for the response
@@ -113,7 +114,7 @@ structure Req where
   payloadOk : Bool         -- handler-specific decoding/validation of the payload succeeds
   wantDeactivate : Bool    -- account update with status=deactivated
   onlyExisting : Bool      -- new-account: onlyReturnExisting
-  verCert : Bool           -- revoke: jws.Verify(certificate public key)
+  certKey : Nat            -- revoke: thumbprint of the public key of the certificate in the payload (a candidate in `jws.ver`)
   deriving DecidableEq, Repr
 
 /-! ### state -/
@@ -210,6 +211,16 @@ abbrev Step := World × Except Rej Ctx
 
 /-! ### middleware -/
 
+/-- the `switch hdr.Algorithm` of `validateJWS`, with the RSA key-size test on an embedded key -/
+def algCheck (j : Jws) : Except Rej Unit :=
+  match j.algClass with
+  | .rsa =>
+    match j.jwk with
+    | some k => if k.isRsa then (if k.rsaBytes < 256 then .error .malformed else .ok ()) else .error .malformed
+    | none => .ok ()
+  | .ecEd => .ok ()
+  | .other => .error .badSigAlg
+
 /-- `validateJWS` (needs the jws in context). The nonce is consumed *before* the url and
     jwk/kid tests, exactly as in the code. -/
 def validateJWS (rq : Req) (w : World) (c : Ctx) : Step :=
@@ -220,20 +231,13 @@ def validateJWS (rq : Req) (w : World) (c : Ctx) : Step :=
     else if j.nsigs > 1 then (w, .error .malformed)
     else if !j.unprotEmpty then (w, .error .malformed)
     else
-      let algOk : Except Rej Unit :=
-        match j.algClass with
-        | .rsa =>
-          match j.jwk with
-          | some k => if k.isRsa then (if k.rsaBytes < 256 then .error .malformed else .ok ()) else .error .malformed
-          | none => .ok ()
-        | .ecEd => .ok ()
-        | .other => .error .badSigAlg
-      match algOk with
+      match algCheck j with
       | .error e => (w, .error e)
       | .ok () =>
-        let (w', found) := consumeNonce w j.nonce
-        if !found then (w', .error .badNonce)
-        else match j.url with
+        match consumeNonce w j.nonce with
+        | (w', false) => (w', .error .badNonce)
+        | (w', true) =>
+          match j.url with
           | none => (w', .error .malformed)
           | some u =>
             if u ≠ rq.url then (w', .error .malformed)
@@ -289,6 +293,26 @@ def verifies (j : Jws) (thumb : Nat) : Bool :=
   let v := j.verFor thumb
   v.plain || (j.isES && ((j.short == 1 && (v.padR || v.padS)) || (j.short == 2 && v.padRS)))
 
+/-- which signature bytes `jws` holds after `verifyAndExtractJWSPayload` succeeded under `thumb`:
+    the retry patches `jws.Signatures` in place and leaves the patch when it verified -/
+inductive SigState where | plain | padR | padS | padRS
+  deriving DecidableEq, Repr
+
+def sigState (j : Jws) (thumb : Nat) : SigState :=
+  let v := j.verFor thumb
+  if v.plain then .plain
+  else if j.short == 1 then (if v.padR then .padR else .padS)
+  else .padRS
+
+/-- `jws.Verify(k)` (no retry) on the signature bytes in state `st` -/
+def verifiesIn (j : Jws) (st : SigState) (thumb : Nat) : Bool :=
+  let v := j.verFor thumb
+  match st with
+  | .plain => v.plain
+  | .padR => v.padR
+  | .padS => v.padS
+  | .padRS => v.padRS
+
 /-- `verifyAndExtractJWSPayload` -/
 def verifyPayload (w : World) (c : Ctx) : Step :=
   match c.jws with
@@ -313,7 +337,10 @@ def runMw (m : Mw) (rq : Req) (w : World) (c : Ctx) : Step :=
   | .checkPrerequisites => (w, .ok c)
   | .addNonce => (issueNonce w rq.fresh, .ok c)
   | .addDirLink => (w, .ok c)
-  | .verifyContentType => if !c.prov then (w, .error .serverInternal) else if !rq.ctOk then (w, .error .malformed) else (w, .ok c)
+  | .verifyContentType =>
+    if !c.prov then (w, .error .serverInternal)
+    else if rq.ct = 0 || (rq.certPath && (rq.ct = 1 || rq.ct = 2)) then (w, .ok c)
+    else (w, .error .malformed)
   | .parseJWS => if !rq.parsed then (w, .error .malformed) else (w, .ok { c with jws := some rq.jws })
   | .validateJWS => validateJWS rq w c
   | .extractJWK => extractJWK w c
@@ -366,7 +393,13 @@ def runHandler (h : Handler) (rq : Req) (w : World) (c : Ctx) : HStep :=
               | some a =>
                 if a.status ≠ .valid then .error .forbidden
                 else if x.acct = a.id then .ok () else .error .forbidden
-            else if rq.verCert then .ok () else .error .forbidden
+            else
+              -- signed with the certificate's key: `jws.Verify(certToBeRevoked.PublicKey)` on the
+              -- signature bytes as `verifyAndExtractJWSPayload` left them
+              match c.jwk with
+              | none => .error .forbidden
+              | some (thumb, _) =>
+                if verifiesIn j (sigState j thumb) rq.certKey then .ok () else .error .forbidden
           match authorised with
           | .error e => (w, .error e)
           | .ok () => if x.revoked then (w, .error .alreadyRevoked) else (setRevoked w x.id, .ok (.revoked x.id))
